@@ -1,3 +1,277 @@
-import NfcVerif.Model.SapLink
+import NfcVerif.Lemmas.Sap
+/-!
+# C17 - LLCP addressing: binding, discovery and delivery reach the right socket
+
+Statements only; proofs are in `Lemmas/Sap.lean`.  Models: `Model/Sap.lean`
+(address table of one `LogicalLinkController`: `bind/_bind_by_*`,
+`insert/remove_socket`, `dispatch`, `collect`, service discovery) and
+`Model/SapLink.lean` (two coupled controllers and the socket API; a blocking
+call = run the link until nothing moves).  The model is of the code with the
+repairs `fixes/C17` (F8: names are forgotten with their SAP, F9: a well-known
+name is not bound over an occupied address); F22 is as found.
+
+`abs c` is the abstract table of the statement (address ⇀ sockets, name ⇀
+address), `BindOk`/`BindErr` the allocation rule and its refusals written
+declaratively, `Inv` the table invariant, `run Pair.init ops` the state after an
+arbitrary history `ops` of socket/bind/listen/connect/accept/sendto/raw
+send/recvfrom/resolve/close/link-transfer operations on two controllers.
+-/
 namespace NfcVerif.C17
+open NfcVerif NfcVerif.Sap
+
+/-! ## allocation: refinement of the rule of the statement -/
+
+/-- Every outcome of `bind` on an unbound socket is one the allocation rule allows
+(address class, freeness, name uniqueness), with exactly the specified effect on
+the abstract table; a refusal changes nothing and carries the specified errno. -/
+theorem bind_refines_spec (c : Llc) (id : Nat) (arg : BindArg) (hu : (c.sock id).addr = none) :
+    (∃ c' a, bind c id arg = .ok c' ∧ BindOk (abs c) (c.sock id).kind arg a ∧
+        (c'.sock id).addr = some a ∧ abs c' = (abs c).bound id a arg) ∨
+    (∃ n, bind c id arg = .error (.llcp n) ∧ BindErr (abs c) (c.sock id).kind arg n) :=
+  bind_sound c id arg hu
+
+example : ∃ c' , bind Sap.init 0 (.name nameSnep) = .ok c' ∧ (c'.sock 0).addr = some 4 := ⟨_, rfl, rfl⟩
+
+/-- errno table, exact: `bind` raises `llcp.Error(n)` exactly in the situations listed by
+`BindErr` (EAGAIN: 32..63 all in use; EFAULT: address outside 0..63 or malformed name;
+EACCES: address below 32 for a non-raw socket; EADDRINUSE: address in use, name in
+use, well-known address in use; EADDRNOTAVAIL (F22): 16..31 all in use). -/
+theorem errno_exact (c : Llc) (id : Nat) (arg : BindArg) (n : Nat) (hu : (c.sock id).addr = none) :
+    bind c id arg = .error (.llcp n) ↔ BindErr (abs c) (c.sock id).kind arg n := by
+  rcases bind_sound c id arg hu with ⟨c', a, h1, h2, _⟩ | ⟨m, h1, h2⟩
+  · constructor
+    · intro h; rw [h1] at h; cases h
+    · intro h; exact (bindOk_not_err h2 h).elim
+  · constructor
+    · intro h; rw [h1] at h; cases h; exact h2
+    · intro h; rw [bindErr_unique h h2]; exact h1
+
+example : BindErr (abs Sap.init) .dlc (.addr 1) EACCES := .eacces 1 (by decide) (by decide) (by decide)
+
+/-- a socket is bound to at most one service access point: a second bind is refused -/
+theorem bound_socket_refused (c : Llc) (id : Nat) (arg : BindArg) (h : (c.sock id).addr.isSome) :
+    bind c id arg = .error (.llcp EINVAL) := by
+  unfold Sap.bind; simp [h]
+
+/-- the full errno statement of the property -/
+def ErrnoStatement : Prop :=
+  ∀ (ops : List Op) (x : Side) (id : Nat) (arg : BindArg) (e : Exc),
+    (((run Pair.init ops).get x).sock id).addr = none →
+    bind ((run Pair.init ops).get x) id arg = .error e →
+    e = .llcp EADDRINUSE ∨ e = .llcp EACCES ∨ e = .llcp EFAULT ∨ e = .llcp EAGAIN
+
+/-- errno table of the statement, proved for every state in which an address in
+16..31 is still free (missing part: exhaustion of the named range, F22). -/
+theorem errno_table_partial (c : Llc) (id : Nat) (arg : BindArg) (e : Exc) (hu : (c.sock id).addr = none)
+    (hfree : ∃ a, 16 ≤ a ∧ a ≤ 31 ∧ c.sap a = none) (h : bind c id arg = .error e) :
+    e = .llcp EADDRINUSE ∨ e = .llcp EACCES ∨ e = .llcp EFAULT ∨ e = .llcp EAGAIN := by
+  rcases bind_sound c id arg hu with ⟨c', a, h1, _⟩ | ⟨m, h1, h2⟩
+  · rw [h1] at h; cases h
+  · rw [h1] at h; cases h
+    cases h2 with
+    | eagain _ => simp
+    | efaultAddr _ _ => simp
+    | eacces _ _ _ _ => simp
+    | inuseAddr _ _ _ _ _ => simp
+    | efaultName _ _ => simp
+    | inuseName _ _ _ _ => simp
+    | inuseWks _ _ _ _ _ _ => simp
+    | exhausted nm _ _ _ hx =>
+      obtain ⟨a, h16, h31, hs⟩ := hfree
+      exact (hx a h16 h31 (by simp [Abs.free, abs, hs])).elim
+
+example : ∃ a, 16 ≤ a ∧ a ≤ 31 ∧ Sap.init.sap a = none := ⟨16, by decide, by decide, rfl⟩
+
+def errOf {α : Type} : Py α → Option Exc
+  | .error e => some e
+  | .ok _ => none
+
+/-- name `urn:nfc:sn:s<letter i>` -/
+def nameS (i : Nat) : Bytes := pfxSn ++ [115, 65 + i]
+
+/-- 17 sockets at controller A, the first 16 bound to 16 different service names -/
+def exhaustOps : List Op :=
+  (List.range 17).map (fun _ => Op.socket false .dlc) ++
+  (List.range 16).map (fun i => Op.bind false i (.name (nameS i)))
+
+set_option maxRecDepth 100000 in
+theorem named_exhaustion_witness :
+    errOf (bind (run Pair.init exhaustOps).a 16 (.name (nameS 16))) = some (.llcp EADDRNOTAVAIL) ∧
+    (((run Pair.init exhaustOps).a).sock 16).addr = none := by
+  decide +kernel
+
+/-- F22: the errno statement is false on the current code - the 17th service name gets
+`EADDRNOTAVAIL` (pinned by `tests/test_llcp_llc.py::test_bind_by_name`). -/
+theorem named_exhaustion_counterexample : ¬ ErrnoStatement := by
+  intro h
+  have hw := named_exhaustion_witness
+  cases hb : bind (run Pair.init exhaustOps).a 16 (.name (nameS 16)) with
+  | ok c' => rw [hb] at hw; simp [errOf] at hw
+  | error e =>
+    rw [hb] at hw
+    simp only [errOf, Option.some.injEq] at hw
+    have := h exhaustOps false 16 (.name (nameS 16)) e hw.2 hb
+    rw [hw.1] at this
+    simp [EADDRNOTAVAIL, EADDRINUSE, EACCES, EFAULT, EAGAIN] at this
+
+/-- well-known service names get their fixed address -/
+theorem wks_fixed (c c' : Llc) (id : Nat) (nm : Bytes) (a : Nat) (hw : wks nm = some a)
+    (h : bind c id (.name nm) = .ok c') : (c'.sock id).addr = some a ∧ c.sap a = none := by
+  obtain ⟨hu, b, hs, _, h1 | ⟨nm', he, _, _, hw', h1⟩⟩ := bind_ok_form h
+  · rcases bind_sound c id (.name nm) hu with ⟨c2, a2, h2, h3, h4, _⟩ | ⟨m, h2, _⟩
+    · rw [h] at h2; cases h2
+      cases h3 with
+      | wks _ _ _ _ hw2 hf => rw [hw] at hw2; cases hw2; exact ⟨h4, by simpa [Abs.free, abs] using hf⟩
+      | named _ _ _ _ hw2 _ _ _ => rw [hw] at hw2; cases hw2
+    · rw [h] at h2; cases h2
+  · cases he
+    rcases hw' with hw' | ⟨hw', _⟩
+    · rw [hw] at hw'; cases hw'; subst h1; exact ⟨by simp [bindAt, upd], hs⟩
+    · rw [hw] at hw'; cases hw'
+
+example : wks nameSnep = some 4 := by decide
+
+/-- other service names get a free address in 16..31 -/
+theorem named_range_16_31 (c c' : Llc) (id : Nat) (nm : Bytes) (hw : wks nm = none)
+    (h : bind c id (.name nm) = .ok c') :
+    ∃ a, (c'.sock id).addr = some a ∧ 16 ≤ a ∧ a ≤ 31 ∧ c.sap a = none ∧ c.snl.lookup nm = none := by
+  obtain ⟨hu, _⟩ := bind_ok_form h
+  rcases bind_sound c id (.name nm) hu with ⟨c2, a2, h2, h3, h4, _⟩ | ⟨m, h2, _⟩
+  · rw [h] at h2; cases h2
+    cases h3 with
+    | wks _ _ _ _ hw2 _ => rw [hw] at hw2; cases hw2
+    | named _ _ _ hl _ h16 h31 hf => exact ⟨a2, h4, h16, h31, by simpa [Abs.free, abs] using hf, hl⟩
+  · rw [h] at h2; cases h2
+
+example : errOf (bind Sap.init 0 (.name (nameS 0))) = none ∧ wks (nameS 0) = none := by decide +kernel
+
+/-- anonymous binds get a free address in 32..63 -/
+theorem anon_range_32_63 (c c' : Llc) (id : Nat) (h : bind c id .none = .ok c') :
+    ∃ a, (c'.sock id).addr = some a ∧ 32 ≤ a ∧ a ≤ 63 ∧ c.sap a = none := by
+  obtain ⟨hu, _⟩ := bind_ok_form h
+  rcases bind_sound c id .none hu with ⟨c2, a2, h2, h3, h4, _⟩ | ⟨m, h2, _⟩
+  · rw [h] at h2; cases h2
+    cases h3 with
+    | anon _ h32 h63 hf => exact ⟨a2, h4, h32, h63, by simpa [Abs.free, abs] using hf⟩
+  · rw [h] at h2; cases h2
+
+/-! ## invariant over all histories -/
+
+/-- The table invariant holds after every history of operations on the two
+controllers (socket ids < number of sockets is checked by `apply`). -/
+theorem reachable_invariant (ops : List Op) : PInv (run Pair.init ops) := reach_inv ops
+
+/-- no address is handed out twice, a socket is in at most one SAP and at most once;
+every socket of a SAP carries the address of that SAP -/
+theorem addr_unique (ops : List Op) (x : Side) (a b id : Nat) (e e' : SapEntry)
+    (h1 : ((run Pair.init ops).get x).sap a = some e) (h2 : ((run Pair.init ops).get x).sap b = some e')
+    (m1 : id ∈ e.socks) (m2 : id ∈ e'.socks) :
+    a = b ∧ e.socks.Nodup ∧ (((run Pair.init ops).get x).sock id).addr = some a := by
+  have hi := (reach_inv ops).get x
+  have q1 := (hi.addrOf a e id h1 m1).1
+  have q2 := (hi.addrOf b e' id h2 m2).1
+  rw [q1] at q2
+  exact ⟨Option.some.inj q2, hi.nodup a e h1, q1⟩
+
+/-- moving PDUs over the link (any number of collect/dispatch rounds) never changes
+either address table -/
+theorem link_keeps_table (k : Nat) (p p' : Pair) (h : pump k p = .ok p') :
+    abs p'.a = abs p.a ∧ abs p'.b = abs p.b := by
+  have hs := pump_same k h
+  constructor
+  · simp only [abs]; congr 1
+    · funext a; exact hs.1.2.2.1 a
+    · exact hs.1.2.2.2
+  · simp only [abs]; congr 1
+    · funext a; exact hs.2.2.2.1 a
+    · exact hs.2.2.2.2
+
+/-! ## close -/
+
+/-- closing the last socket of an address frees the address and forgets its service
+names (repaired F8); nothing else in the table changes -/
+theorem close_frees (c : Llc) (id a : Nat) (e : SapEntry) (s' : Sock) (h : e.socks = [id]) :
+    (removeSocket c id a e s').sap a = none ∧
+    (∀ nm, (removeSocket c id a e s').snl.lookup nm ≠ some a) ∧
+    (∀ b, b ≠ a → (removeSocket c id a e s').sap b = c.sap b) ∧
+    (∀ nm b, b ≠ a → c.snl.lookup nm = some b → (removeSocket c id a e s').snl.lookup nm = some b) :=
+  removeSocket_last c id a e s' h
+
+/-- while other sockets remain the address and its names stay -/
+theorem close_keeps_shared (c : Llc) (id a : Nat) (e : SapEntry) (s' : Sock) (h : e.socks.erase id ≠ []) :
+    (removeSocket c id a e s').sap a = some { e with socks := e.socks.erase id } ∧
+    (removeSocket c id a e s').snl = c.snl :=
+  removeSocket_more c id a e s' h
+
+/-- bind a name, close, bind the name again: works and reuses the address -/
+def rebindOps : List Op :=
+  [.socket false .dlc, .bind false 0 (.name (nameS 0)), .close false 0, .socket false .ldl,
+   .bind false 1 (.name (nameS 0))]
+
+set_option maxRecDepth 100000 in
+example : (((run Pair.init rebindOps).a).sock 1).addr = some 16 ∧
+    ((run Pair.init rebindOps).a).snl.lookup (nameS 0) = some 16 := by decide +kernel
+
+/-! ## discovery, connect-by-name, datagrams -/
+
+/-- a registered service name always designates a live SAP whose sockets are bound
+there (in every reachable state): no stale names -/
+theorem names_live (ops : List Op) (x : Side) (nm : Bytes) (a : Nat)
+    (h : ((run Pair.init ops).get x).snl.lookup nm = some a) :
+    (nm = nameSdp ∧ a = 1) ∨
+    (2 ≤ a ∧ ∃ e, ((run Pair.init ops).get x).sap a = some e ∧ e.socks ≠ [] ∧
+       ∀ j ∈ e.socks, (((run Pair.init ops).get x).sock j).addr = some a) :=
+  name_live ((reach_inv ops).get x) h
+
+/-- name resolution: the responder answers SDREQ(tid, name) with the address
+registered under the name or 0 (absence) and changes nothing else; the requester
+stores exactly the answered address for the requested name -/
+theorem resolve_exact (b : Llc) (a : Llc) (tid : Nat) (nm : Bytes) (ha : a.sd.sent.lookup tid = some nm)
+    (hv : (b.snl.lookup nm).getD 0 < 64) :
+    ∃ b' a', dispatch b (.snl [(tid, nm)] []) = .ok b' ∧
+      b'.sd.sdres = b.sd.sdres ++ [(tid, (b.snl.lookup nm).getD 0)] ∧ abs b' = abs b ∧
+      dispatch a (.snl [] [(tid, (b.snl.lookup nm).getD 0)]) = .ok a' ∧
+      a'.sd.cache.lookup nm = some ((b.snl.lookup nm).getD 0) := by
+  obtain ⟨b', h1, h2, _, h4, h5⟩ := sdreq_answer b tid nm
+  obtain ⟨a', h6, h7⟩ := sdres_cached a tid _ nm ha hv
+  exact ⟨b', a', h1, h2, by simp [abs, h4, h5], h6, h7⟩
+
+/-- connect-by-name reaches only a listening socket bound at the address registered
+under that name -/
+theorem connect_by_name_exact (ops : List Op) (x : Side) (ss : Nat) (nm : Bytes) (c' : Llc)
+    (h : dispatch ((run Pair.init ops).get x) (.conn 1 ss (some nm)) = .ok c') (j : Nat)
+    (hj : c'.sock j ≠ ((run Pair.init ops).get x).sock j) :
+    ∃ a, ((run Pair.init ops).get x).snl.lookup nm = some a ∧
+      (((run Pair.init ops).get x).sock j).addr = some a ∧ (((run Pair.init ops).get x).sock j).st = .listen :=
+  by_name_exact ((reach_inv ops).get x) h hj
+
+/-- ... and reports absence (DM, reason 2) without touching any socket when the name is
+not registered -/
+theorem connect_by_name_absent (c : Llc) (ss : Nat) (nm : Bytes) (h : c.snl.lookup nm = none) :
+    dispatch c (.conn 1 ss (some nm)) =
+      .ok { c with sd := { c.sd with dmpdu := c.sd.dmpdu ++ [.dm ss 1 2] } } :=
+  by_name_absent h
+
+/-- a connectionless datagram changes only a socket bound at its destination
+address; a raw/logical-data-link socket receives exactly the PDU (payload, length
+and source address unchanged) at the end of its queue -/
+theorem datagram_delivery (ops : List Op) (x : Side) (d s : Nat) (m : Bytes) (c' : Llc)
+    (h : dispatch ((run Pair.init ops).get x) (.ui d s m) = .ok c') (j : Nat)
+    (hj : c'.sock j ≠ ((run Pair.init ops).get x).sock j) :
+    (((run Pair.init ops).get x).sock j).addr = some d ∧
+    ((((run Pair.init ops).get x).sock j).kind ≠ .dlc →
+      c'.sock j = { ((run Pair.init ops).get x).sock j with
+                    recvq := (((run Pair.init ops).get x).sock j).recvq ++ [.ui d s m] }) :=
+  ui_delivery ((reach_inv ops).get x) h hj
+
+/-- end to end on a concrete history: A sends a datagram from 32 to B's socket at 40,
+a neighbour socket at 41 stays empty -/
+def dgramOps : List Op :=
+  [.socket false .ldl, .socket true .ldl, .socket true .ldl, .bind false 0 .none, .bind true 0 (.addr 40),
+   .bind true 1 (.addr 41), .sendto false 0 [1, 2, 3] 40, .xfer false]
+
+set_option maxRecDepth 100000 in
+example : (((run Pair.init dgramOps).b).sock 0).recvq = [.ui 40 32 [1, 2, 3]] ∧
+    (((run Pair.init dgramOps).b).sock 1).recvq = [] := by decide +kernel
+
 end NfcVerif.C17
